@@ -52,14 +52,17 @@ package urltree
 //@   instantiate T=int
 //@   ghostlocal path gmap[int]*Node[int]
 //@   ghostlocal fnode gmap[int]*Node[int]
+//@   ghostlocal fpos gmap[int]int
 //@   requires urlTree != nil && urlTree.Root != nil && allocated(urlTree.Root) && nodesOK()
 //@   modifies nothing
 //@   on entry do path[0] = urlTree.Root
-//@   loop 1 modifies path, fnode
-//@   loop 1 do path[idx1] = currentNode; fnode[len(flows) - 1] = ite(path[idx1-1].WildcardChild != nil && path[idx1-1].WildcardChild.Value != nil, path[idx1-1].WildcardChild, fnode[len(flows) - 1])
+//@   loop 1 modifies path, fnode, fpos
+//@   loop 1 do path[idx1] = currentNode; fnode[len(flows) - 1] = ite(path[idx1-1].WildcardChild != nil && path[idx1-1].WildcardChild.Value != nil, path[idx1-1].WildcardChild, fnode[len(flows) - 1]); fpos[idx1-1] = len(flows) - 1
 //@   loop 1 invariant[on-the-path] walkedParts == idx1 && path[0] == urlTree.Root && currentNode == path[idx1] && currentNode != nil && allocated(currentNode)
 //@   loop 1 invariant[literal-then-parameter] forall(j, 0, idx1, path[j] != nil && allocated(path[j]) && stepTo(path[j], splitURL[j], path[j+1]))
 //@   loop 1 invariant[only-wildcards-on-the-way] forall(r, 0, len(flows), fnode[r] != nil && fnode[r].Value != nil && flows[r] == *fnode[r].Value && exists(j, 0, idx1, fnode[r] == path[j].WildcardChild))
+//@   loop 1 invariant[every-wildcard-on-the-way] forall(j, 0, idx1, path[j].WildcardChild != nil && path[j].WildcardChild.Value != nil ==> 0 <= fpos[j] && fpos[j] < len(flows) && flows[fpos[j]] == *path[j].WildcardChild.Value)
+//@   ensures[every-wildcard-on-the-way] forall(j, 0, walkedParts, path[j].WildcardChild != nil && path[j].WildcardChild.Value != nil ==> 0 <= fpos[j] && fpos[j] < len(result.found) && result.found[fpos[j]] == *path[j].WildcardChild.Value)
 //@   ensures[walk] 0 <= walkedParts && walkedParts <= len(splitURL) && forall(j, 0, walkedParts, stepTo(path[j], splitURL[j], path[j+1]))
 //@   ensures[stops-only-without-a-child] walkedParts < len(splitURL) ==> !litStep(path[walkedParts], splitURL[walkedParts]) && !parStep(path[walkedParts], splitURL[walkedParts])
 //@   ensures[own-node-included] walkedParts == len(splitURL) && path[walkedParts].Value != nil && path[walkedParts].WildcardChild == nil ==> len(result.found) > 0 && result.found[len(result.found) - 1] == *path[walkedParts].Value
